@@ -672,6 +672,11 @@ class _PairsClassifierMixin(BaseMetricLearner, ClassifierMixin):
       cum_tn_inverted = stable_cumsum(y_ordered[::-1] == -1)
       cum_tn = np.concatenate([[0.], cum_tn_inverted])[::-1]
       cum_accuracy = (cum_tp + cum_tn) / n_samples
+      # a threshold cannot separate pairs that have the same score: cutting
+      # inside a group of tied scores is not realisable, only after its last
+      # element
+      tied_with_next = scores_sorted[1:-1] == scores_sorted[2:]
+      cum_accuracy[1:-1][tied_with_next] = -1.
       imax = np.argmax(cum_accuracy)
       # we set the threshold to the lowest accepted score
       # note: we are working with negative distances but we want the threshold
@@ -706,9 +711,11 @@ class _PairsClassifierMixin(BaseMetricLearner, ClassifierMixin):
       # (see a more detailed discussion in test_calibrate_threshold_extreme)
       return self
 
+    # all the thresholds are needed: the points that roc_curve drops by default
+    # (they do not change the shape of the curve) can be the best admissible ones
     fpr, tpr, thresholds = roc_curve(y_valid,
                                      self.decision_function(pairs_valid),
-                                     pos_label=1)
+                                     pos_label=1, drop_intermediate=False)
     # here the thresholds are decreasing
     fpr, tpr, thresholds = fpr, tpr, thresholds
 
